@@ -53,6 +53,7 @@ class SNode:
     attrs: list = field(default_factory=list)  # (name, ns, type, optional)
     children: list = field(default_factory=list)  # (SNode, min, max)
     interleave: bool = False
+    n_interleaved: int = 0
     mixed: bool = False
     nillable: bool = False
     leaf_attrs: bool = False
@@ -65,6 +66,7 @@ class HiddenModel:
         self.hostile = hostile
         self.used = set()
         self.class_names = ClassNames()
+        self.allow_known_findings = False
         self.nss = [None, f"urn:samples:{salt}:a", f"urn:samples:{salt}:b"][: rng.choice([1, 2, 3])]
         self.root = self.node(0, rng.choice(self.nss))
 
@@ -92,8 +94,11 @@ class HiddenModel:
             n.leaf_type = rng.choice(LEAF_TYPES)
             if rng.random() < 0.15:
                 n.leaf_attrs = True
-                n.attrs = self.attrs()
-            if rng.random() < 0.1:
+                n.attrs = self.attrs(always=True)
+            if rng.random() < 0.25 and (self.allow_known_findings or any(not o for _, _, _, o in n.attrs)):
+                # xsi:nil only on leaves that carry an attribute in every occurrence (classes everywhere): a bare leaf that
+                # is nil in one place becomes a union of a primitive and an empty class, which loses following text in mixed
+                # content and can reject values (open known finding C13/leaf-with-optional-attribute-in-mixed-content)
                 n.nillable = True
             return n
         n.attrs = self.attrs()
@@ -101,18 +106,40 @@ class HiddenModel:
             cns = ns if rng.random() < 0.75 else rng.choice(self.nss)
             ch = self.node(depth + 1, cns)
             mn, mx = rng.choice([(1, 1), (1, 1), (0, 1), (0, 3), (1, 3), (2, 2)])
+            if mn == 0 and not self.allow_known_findings:
+                ch.nillable = False  # an absent optional nillable element comes back as nil (same mechanism as C02/optional-nillable-absent-becomes-nil)
             n.children.append((ch, mn, mx))
         reps = [c for c in n.children if c[2] > 1]
         if len(reps) >= 2 and rng.random() < 0.3:
             n.interleave = True
+            # the interleaved children form one contiguous block (a b a b ...) in every sample: a repeated
+            # group with the same number of occurrences for each of its members
+            mn, mx = reps[0][1], reps[0][2]
+            n.children = [(c[0], mn, mx) for c in reps] + [c for c in n.children if c[2] <= 1]
+            n.n_interleaved = len(reps)
+        if not self.allow_known_findings and not any(mn >= 1 for _, mn, _ in n.children) and not any(not o for _, _, _, o in n.attrs):
+            # an occurrence without any attribute or child would look like a bare leaf (open known finding
+            # C13/element-sometimes-bare-becomes-union): keep one child mandatory
+            if n.interleave:
+                n.children[: n.n_interleaved] = [(c, 1, max(mx, 1)) for c, _, mx in n.children[: n.n_interleaved]]
+            else:
+                ch, _, mx = n.children[0]
+                n.children[0] = (ch, 1, max(mx, 1))
         if rng.random() < 0.08:
             n.mixed = True
         return n
 
-    def attrs(self):
+    def attrs(self, always=False):
+        """always: a leaf with attributes needs one attribute that is present in every occurrence, otherwise the bare
+        occurrences are read as a primitive and the others as a class (open known finding
+        C13/element-sometimes-bare-becomes-union, probe in vf/props/c13.py)."""
         rng = self.rng
         out = []
         used = set()
+        if always and not self.allow_known_findings:
+            nm = rng.choice(["id", "code", "kind"])
+            used.add(nm)
+            out.append((nm, None, rng.choice(LEAF_TYPES), False))
         for _ in range(rng.choice([0, 0, 1, 2])):
             nm = rng.choice(["id", "lang", "size", "code", "kind", "a-b", "n.m"] + (HOSTILE_NAMES[:30] if self.hostile else []))
             if not lx.is_ncname(nm) or nm in used:
@@ -143,26 +170,19 @@ class HiddenModel:
                 el.text = leaf_value(rng, n.leaf_type)
             return el
         groups = []
-        for ch, mn, mx in n.children:
+        shared = None
+        for j, (ch, mn, mx) in enumerate(n.children):
             k = mx if full else rng.randint(mn, mx)
+            if n.interleave and j < n.n_interleaved:
+                shared = k if shared is None else shared
+                k = shared
             groups.append([self.build(ch, None, full) for _ in range(k)])
         if n.interleave:
             # repeated children rendered in parallel order: a b a b ...
-            seq = []
-            reps = [g for g in groups if len(g) > 1]
-            done = set()
-            for g in groups:
-                if len(g) > 1:
-                    if id(g) in done:
-                        continue
-                    m = max(len(x) for x in reps)
-                    for i in range(m):
-                        for x in reps:
-                            if i < len(x):
-                                seq.append(x[i])
-                    done.update(id(x) for x in reps)
-                else:
-                    seq.extend(g)
+            reps = groups[: n.n_interleaved]
+            seq = [x[i] for i in range(len(reps[0])) for x in reps]
+            for g in groups[n.n_interleaved :]:
+                seq.extend(g)
         else:
             seq = [x for g in groups for x in g]
         if n.mixed and seq:
